@@ -51,6 +51,27 @@ partial def buildTree (toks : List (String × Nat)) : Option (Tree String × Lis
     | none => none
     | some (cs, rest') => some (.node l cs, rest')
 
+instance : Inhabited (Tree (String × Nat) × Nat) := ⟨(.node ("", 0) [], 0)⟩
+
+/-- number the nodes of a tree in preorder -/
+partial def numberAux (t : Tree String) (k : Nat) : Tree (String × Nat) × Nat :=
+  match t with
+  | .node l cs =>
+    let rec go (cs : List (Tree String)) (k : Nat) (acc : List (Tree (String × Nat))) : List (Tree (String × Nat)) × Nat :=
+      match cs with
+      | [] => (acc.reverse, k)
+      | c :: r => let (c', k') := numberAux c k; go r k' (c' :: acc)
+    let (cs', k') := go cs (k + 1) []
+    (.node (l, k) cs', k')
+
+def numberTree (t : Tree String) : Tree (String × Nat) := (numberAux t 0).1
+
+/-- `mime|ext|aliases` -> `mime|ext` -/
+def mimeExtOf (l : String) : String :=
+  match l.splitOn "|" with
+  | m :: e :: _ => m ++ "|" ++ e
+  | _ => l
+
 def infoLabel (i : Info) : String :=
   bhex i.mime ++ "|" ++ bhex i.ext ++ "|" ++ String.intercalate "+" (i.aliases.map bhex)
 
@@ -63,6 +84,27 @@ partial def dumpList (cs : List (Tree Info)) : List String :=
   | [] => []
   | c :: r => dumpTree c ++ dumpList r
 end
+
+/-- model of a sequence of Extend calls (same script syntax as the harness) -/
+def applyScript (script : String) (T : Tree Info) : Option (Tree Info) :=
+  if script == "~" then some T else
+  let calls := script.splitOn ";"
+  let rec go (cs : List String) (k : Nat) (T : Tree Info) : Option (Tree Info) :=
+    match cs with
+    | [] => some T
+    | c :: rest =>
+      match c.splitOn ":" with
+      | [path, pred, mh, eh, al] => do
+        let mime ← unhex mh
+        let ext ← unhex eh
+        let aliases ← if al == "~" then some [] else (al.splitOn "+").mapM unhex
+        let idxs ← if path == "r" then some [] else (path.splitOn ".").mapM String.toNat?
+        let node : Tree Info := .node { name := s!"x#{k}", detName := pred, mime := mime, ext := ext,
+                                        aliases := aliases, det := .custom .unknown } []
+        let T' ← Tree.extendAt node idxs T
+        go rest (k + 1) T'
+      | _ => none
+  go calls 0 T
 
 structure St where
   dummy : Unit := ()
@@ -143,7 +185,9 @@ def handle (line : String) : String :=
           | leaf :: _ => MT.withCharset leaf.mime cs
         let m := chainStr chain ++ " " ++ bhex leafStr
         let d1 := if bad.isEmpty then "" else "DIFF verdicts " ++ String.intercalate ";" bad
-        let d2 := if m == goRes then "" else s!"DIFF walk model={m}"
+        let goChain := (goRes.splitOn " ").headD ""
+        let d2 := if chainStr chain == goChain then (if m == goRes then "" else s!"DIFF leaf model={m}")
+                  else s!"DIFF walk model={m} ; SPEC C03:chain-not-first-match-path"
         -- the specification oracle judges the implementation's own result
         let sp := match parseGoWalk goRes with
           | some (gchain, gleaf) => Spec.walkSpec raw l gchain gleaf
@@ -191,6 +235,69 @@ def handle (line : String) : String :=
         let m := bhex (Charset.xmlEncoding s)
         if m == goRes then "OK" else s!"DIFF xmlenc model={m}"
       | none => "BAD args"
+    | ["xwalk", script, hx, lim, dump, verd] =>
+      match unhex hx, parseNat lim, applyScript script Gen.builtin with
+      | some _raw, some _l, some T =>
+        let vs := verd.toList
+        let goChain := (goRes.splitOn " ").headD ""
+        -- (1) C03: the real result is the first-match path of the *runtime* tree under the real verdicts
+        let toks : List (String × Nat) := (dump.splitOn "_").map fun t =>
+          match t.splitOn "/" with
+          | [l, n] => (l, n.toNat?.getD 0)
+          | _ => (t, 0)
+        let numbered : List (String × Nat) := toks
+        let d1 := match buildTree numbered with
+          | none => "DIFF bad-tree-dump"
+          | some (gt, _) =>
+            let gflat := numberTree gt
+            let gacc : (String × Nat) → Bool := fun p => (vs.getD p.2 'F') == 'T'
+            let gchain := (gflat.walk gacc).reverse.map (fun p => mimeExtOf p.1)
+            if String.intercalate "," gchain == goChain then "" else
+              s!"DIFF xwalk-runtime-tree model={String.intercalate "," gchain} ; SPEC C03:chain-not-first-match-path"
+        -- (2) C14: the runtime tree is the model of the Extend calls
+        let mdump := String.intercalate "_" (dumpTree T)
+        let shapeOk := mdump == dump
+        let d2 := if shapeOk then "" else "DIFF tree-after-extend ; SPEC C14:tree-shape-after-extend"
+        let flat := T.flatten
+        let idx := flat.zip vs
+        let acc : Info → Bool := fun i =>
+          match idx.find? (fun p => p.1.name == i.name) with
+          | some (_, c) => c == 'T'
+          | none => false
+        -- non-interference: all extension detectors reject => same as the walk before the calls
+        let extAccept := idx.any (fun p => p.1.name.startsWith "x#" && p.2 == 'T')
+        let before := (Gen.builtin.walk acc).reverse
+        let d3 := if shapeOk && !extAccept && chainStr before != goChain then "SPEC C14:rejected-extensions-changed-result" else ""
+        let chain := (T.walk acc).reverse
+        let d3b := if shapeOk && chainStr chain != goChain then "DIFF xwalk ; SPEC C14:walk-over-extended-tree" else ""
+        let d4 := if (goRes.splitOn " ").contains "EARLIER-RESULT-CHANGED" then "SPEC C14:earlier-result-changed" else ""
+        let d5 := if (goRes.splitOn " ").contains "MODIFIED" then "SPEC C04:input-buffer-modified" else ""
+        let all := [d1, d2, d3, d3b, d4, d5].filter (· != "")
+        if all.isEmpty then "OK" else String.intercalate " ; " all
+      | _, _, _ => "BAD args"
+    | ["xlookup", script, nm] =>
+      match unhex nm, applyScript script Gen.builtin with
+      | some name, some T =>
+        let r := T.lookup (fun i => i.mime == name || i.aliases.contains name)
+        let lbl := fun (i : Info) => bhex i.mime ++ "|" ++ bhex i.ext
+        let m := match r with
+          | none => "NIL NIL"
+          | some p => match p.reverse with
+            | [] => "NIL NIL"
+            | [n] => lbl n ++ " NIL"
+            | n :: par :: _ => lbl n ++ " " ++ lbl par
+        -- C14 lookup clause: a fresh extension name resolves to the extension, under the parent it was registered on
+        let fresh := !(Gen.builtin.flatten.any (fun i => i.mime == name || i.aliases.contains name))
+        let exts := T.flatten.filter (fun i => i.name.startsWith "x#" && (i.mime == name || i.aliases.contains name))
+        let sp := if fresh && exts.length == 1 then
+            (match r with
+             | some p => if (p.getLast?.map (·.name)) == exts.head?.map (·.name) then "" else "SPEC C14:lookup-finds-wrong-node"
+             | none => "SPEC C14:lookup-misses-extension")
+          else ""
+        let d := if m == goRes then "" else s!"DIFF xlookup model={m}" ++ (if fresh && exts.length == 1 then " ; SPEC C14:lookup-of-extension" else "")
+        let all := [d, sp].filter (· != "")
+        if all.isEmpty then "OK" else String.intercalate " ; " all
+      | _, _ => "BAD args"
     | ["treeeq"] =>
       let m := String.intercalate " " (dumpTree Gen.builtin)
       if m == goRes then "OK" else s!"DIFF tree model={m}"
